@@ -3,7 +3,7 @@ package main
 // respbytes: the inbound SSO pipeline evaluated FROM THE BYTES.
 //
 // The set `resp` hands the model the element tree etree built (VerifParseResponse) and a decryption table whose
-// answers are trees.  The sibling set `respbytes` (every respBytesEvery-th case of the response stream, plus every case
+// answers are trees.  The sibling set `respbytes` (every respBytesEvery-th case of the response stream, plus the first respBytesMaxFail cases
 // whose message parseResponse rejects) hands it NO tree: the input is the message after base64, and the model's own
 // reader (P_PipelineBytes.bytes_parse: XmlTok tokenizer, etree tree building, attribute de-duplication, Root(), then the
 // nil-root check and the round-trip validator) produces the root.  The decrypted-assertion path is treated the same
@@ -25,9 +25,9 @@ import (
 )
 
 const (
-	respBytesEvery    = 8
+	respBytesEvery    = 10
 	respBytesMaxBytes = 40 << 10 // documents above this size are left to `resp` (evaluation time of the tokenizer in Coq)
-	respBytesMaxFail  = 24       // parse-rejected messages taken per stream beyond the every-8th rule
+	respBytesMaxFail  = 4        // parse-rejected messages taken per stream beyond the every-10th rule
 )
 
 // respBytesSets: the `respbytes` set that belongs to a `resp` set (runOneResponse is handed the latter only)
